@@ -287,3 +287,42 @@ def gen_rollout(rng, tmpls=(1, 2, 3)):
     cache = copy.deepcopy(api)
     cache["revs"] = []
     return scenario(api, cache, tmpls=tmpls)
+
+
+def gen_history(rng, tmpls=(1, 2, 3, 4)):
+    """revision-heavy snapshots: own / adopted-after-upgrade (labels + marker) / orphan / foreign revisions,
+    small limits, pods pinned to old revisions"""
+    init_hashes()
+    sc = gen_rollout(rng, tmpls=(1, 2, 3))
+    for w in (sc["api"], sc["cache"]):
+        w["set"]["rhl"] = rng.choice([0, 0, 1, 1, 2, 3])
+    api = sc["api"]
+    base = len(api["revs"])
+    n = rng.randint(1, 5)
+    names = {r["name"] for r in api["revs"]}
+    extra = []
+    for i in range(n):
+        k = rng.choice(tmpls)
+        nm = "web-old%d" % i
+        o = rng.random()
+        owner = ME if o < 0.6 else None if o < 0.75 else rng.choice([DS, OTHERSET, STALE])
+        style = rng.random()
+        if style < 0.35:
+            match, marker = True, "web"            # adopted after an upgrade: both
+        elif style < 0.5:
+            match, marker = False, "web"
+        elif style < 0.6:
+            match, marker = True, "db"
+        else:
+            match, marker = True, None
+        extra.append(mkrev(nm, 0, k, owner=owner, match=match, marker=marker, hashlabel=rng.choice([None, "abc", "12"]),
+                           created=rng.choice([0, 1, 2])))
+    revs = extra + api["revs"]
+    for i, r in enumerate(revs):
+        r["revision"] = i + 1 if rng.random() < 0.9 else max(i, 1)
+    api["revs"] = revs
+    if api["pods"] and rng.random() < 0.5:
+        rng.choice(api["pods"])["rev"] = rng.choice(extra)["name"]
+        sc["cache"]["pods"] = copy.deepcopy(api["pods"])
+    sc["tmpls"] = list(tmpls)
+    return sc
